@@ -52,7 +52,7 @@ func init() {
 	register("c09child", c09Child)
 	for _, fn := range []string{"c.run", "c.json.marshal", "c.json.enc", "c.json.rt", "c.json.unmarshal", "c.json.tok", "c.json.map",
 		"c.proto.marshal", "c.proto.rt", "c.proto.typeof", "c.proto.typeof.same", "c.thrift.marshal", "c.thrift.rt", "c.json.std", "c.selftest",
-		"c.json.fail", "c.json.nested", "c.json.tokreset", "c.proto.badmap", "c.json.pool.nested", "c.json.pool.after-failures", "c.json.pool.cold"} {
+		"c.json.fail", "c.json.nested", "c.json.tokreset", "c.proto.badmap", "c.proto.badmap.fixed", "c.json.pool.nested", "c.json.pool.after-failures", "c.json.pool.cold"} {
 		replayers[fn] = c09Replay
 	}
 }
@@ -63,9 +63,9 @@ const c09Slots = 16 // private task slots (the largest G)
 // predeclared named recursive types (reflect.StructOf cannot build recursive types)
 
 type c09JRecA struct {
-	V    int               `json:"v"`
-	Next *c09JRecA         `json:"next,omitempty"`
-	Kids []c09JRecA        `json:"kids,omitempty"`
+	V    int                  `json:"v"`
+	Next *c09JRecA            `json:"next,omitempty"`
+	Kids []c09JRecA           `json:"kids,omitempty"`
 	M    map[string]*c09JRecA `json:"m,omitempty"`
 }
 type c09JRecB struct {
@@ -100,10 +100,10 @@ type c09PRecC struct {
 }
 
 type c09TRecA struct {
-	V    int64       `thrift:"1"`
-	Next *c09TRecA   `thrift:"2,optional"`
-	Kids []c09TRecA  `thrift:"3"`
-	S    string      `thrift:"4"`
+	V    int64      `thrift:"1"`
+	Next *c09TRecA  `thrift:"2,optional"`
+	Kids []c09TRecA `thrift:"3"`
+	S    string     `thrift:"4"`
 }
 type c09TRecB struct {
 	C  *c09TRecC `thrift:"1,optional"`
@@ -336,7 +336,7 @@ func c09Err(err error) string {
 type c09Task struct {
 	fn   string
 	desc string
-	run  func() string // goroutine-safe: reads its (shared, immutable) input, allocates its own outputs
+	run  func() string  // goroutine-safe: reads its (shared, immutable) input, allocates its own outputs
 	tyof func() uintptr // proto.TypeOf identity probe (shared proto tasks only)
 }
 
@@ -604,10 +604,10 @@ type c09Nester struct{ In c09Inner }
 func (n c09Nester) MarshalJSON() ([]byte, error) { return json.Marshal(n.In) }
 
 type c09Outer struct {
-	A string    `json:"a"`
-	N c09Nester `json:"n"`
+	A string      `json:"a"`
+	N c09Nester   `json:"n"`
 	M []c09Nester `json:"m"`
-	Z string    `json:"z"`
+	Z string      `json:"z"`
 }
 
 func c09OuterValue(k int) (c09Outer, string) {
@@ -743,6 +743,31 @@ func c09ProtoBadMapTasks(r *vrng) []c09Task {
 			return bad + " " + c09Short(c09RenderS(reflect.ValueOf(y))) + " " + c09Err(e2)
 		}})
 	}
+	// the same with an outcome known by construction (the oracle is the constant ok, not the sequential run, which
+	// would reproduce a deterministic leak): a rejected entry, then entries that OMIT their key or their value and a
+	// message value with one field only. Hand-written wire bytes: M is field 1, N field 2 of c09PMap; an entry is
+	// key = field 1, value = field 2; c09PRecB.Id is field 2
+	ts = append(ts, c09Task{fn: "c.proto.badmap.fixed", desc: "stale scratch", run: func() string {
+		var x, z c09PMap
+		// M entry {key:"stale-key", value: truncated}; N entry {key:77, value:{Id:7, then a truncated field}}
+		e1 := proto.Unmarshal([]byte{0x0a, 0x0e, 0x0a, 0x09, 's', 't', 'a', 'l', 'e', '-', 'k', 'e', 'y', 0x12, 0x05, 'v'}, &x)
+		e2 := proto.Unmarshal([]byte{0x12, 0x08, 0x08, 0x4d, 0x12, 0x04, 0x10, 0x07, 0x10, 0x80}, &x)
+		if e1 == nil || e2 == nil {
+			return "MALFORMED-ENTRY-ACCEPTED"
+		}
+		e3 := proto.Unmarshal([]byte{0x0a, 0x03, 0x12, 0x01, 'w', 0x0a, 0x03, 0x0a, 0x01, 'k', 0x12, 0x04, 0x08, 0x09, 0x12, 0x00, 0x12, 0x04, 0x12, 0x02, 0x10, 0x05}, &z)
+		if e3 != nil {
+			return "err " + c09Err(e3)
+		}
+		ok := len(z.M) == 2 && z.M[""] == "w" && z.M["k"] == "" && len(z.N) == 2 && z.N[9] != nil && z.N[9].Id == 0 && z.N[9].C == nil && z.N[0] != nil && z.N[0].Id == 5 && z.N[0].C == nil
+		if k, has := z.M["k"]; !has || k != "" {
+			ok = false
+		}
+		if !ok {
+			return c09Short("STALE-SCRATCH " + c09RenderS(reflect.ValueOf(z)))
+		}
+		return "ok"
+	}})
 	return ts
 }
 
@@ -1239,7 +1264,7 @@ func c09Group(seed uint64, rounds int, combos [][2]int, detailed bool) {
 			if !ok {
 				o = "MISSING-IN-SEQUENTIAL-RUN"
 			}
-			if l[1] == "c.json.nested" {
+			if l[1] == "c.json.nested" || l[1] == "c.proto.badmap.fixed" {
 				o = "ok" // known by construction, independent of the state of any pool
 			}
 			// a summary group prints its agreeing tasks as one count per function; every disagreement is printed in full
